@@ -6559,6 +6559,14 @@ impl Nudge {
             return Ok(self.span);
         }
 
+        // When rounding time units relative to a zoned datetime, the time
+        // left over after rounding past the end of a day is part of the
+        // result. (It is usually zero, but not when the balanced span has
+        // more time than its last day is long, which occurs next to time
+        // zone transitions.) Bubbling only rebalances calendar units, so
+        // the time is put back at the end.
+        let time_below_day = self.span.only_lower(Unit::Day);
+        let keep_time = smallest < Unit::Day;
         let smallest = smallest.max(Unit::Day);
         let mut balanced = self.span;
         let sign = balanced.get_sign_ranged();
@@ -6609,6 +6617,15 @@ impl Nudge {
             } else {
                 break;
             }
+        }
+        if keep_time {
+            balanced = balanced
+                .hours_ranged(time_below_day.get_hours_ranged())
+                .minutes_ranged(time_below_day.get_minutes_ranged())
+                .seconds_ranged(time_below_day.get_seconds_ranged())
+                .milliseconds_ranged(time_below_day.get_milliseconds_ranged())
+                .microseconds_ranged(time_below_day.get_microseconds_ranged())
+                .nanoseconds_ranged(time_below_day.get_nanoseconds_ranged());
         }
         Ok(balanced)
     }
